@@ -480,8 +480,15 @@ class Ins:
   def __init__(self, v): self.v = v
 
 def holds_missing(x):
+  """Some list at or below x holds the MISSING_VALUE marker (assigned while change notification was off): such a state is only
+  reachable through the extensions, and copying it is the subject of the open C07 finding."""
   P = D.pg()
-  return isinstance(x, list) and any((not D.is_sym(v)) and P.MISSING_VALUE == v for v in (x.sym_values() if isinstance(x, P.List) else x))
+  if isinstance(x, P.List):
+    vs = list(x.sym_values())
+    return any((not D.is_sym(v)) and P.MISSING_VALUE == v for v in vs) or any(holds_missing(v) for v in vs)
+  if isinstance(x, P.Dict):
+    return any(holds_missing(v) for v in x.sym_values())
+  return False
 
 def plain_value(impl, v):
   """The plain value an operation argument denotes (before the operation runs)."""
